@@ -327,6 +327,11 @@ def gen_lean():
     defaults = dict(zip(names[-len(f.args.defaults):], [ast.literal_eval(d) for d in f.args.defaults]))
     inlier_cmp = min_cmp = iter_cmp = iter_const = returned = None
     fit_masks = set()
+    rets = [n for n in ast.walk(f) if isinstance(n, ast.Return)]
+    if len(rets) != 1 or not isinstance(rets[0].value, ast.Tuple) or len(rets[0].value.elts) != 3 \
+            or not isinstance(rets[0].value.elts[2], ast.Name):
+        raise ValueError("superimpose_without_outliers does not return (fitted, transform, <anchor indices>)")
+    ret_anchor_name = rets[0].value.elts[2].id          # whatever the local is called
     for node in ast.walk(f):
         # the inlier test: `mask[mask] = (sq_dist <= bound)` — a comparison assigned through a subscript
         if isinstance(node, ast.Assign) and isinstance(node.targets[0], ast.Subscript) and isinstance(node.value, ast.Compare):
@@ -350,7 +355,7 @@ def gen_lean():
                 isinstance(node.slice.elts[0], ast.Constant) and node.slice.elts[0].value is Ellipsis and \
                 isinstance(node.slice.elts[1], ast.Name):
             fit_masks.add(node.slice.elts[1].id)
-        if isinstance(node, ast.Assign) and isinstance(node.targets[0], ast.Name) and node.targets[0].id == "anchor_indices":
+        if isinstance(node, ast.Assign) and isinstance(node.targets[0], ast.Name) and node.targets[0].id == ret_anchor_name:
             names = [n.id for n in ast.walk(node.value) if isinstance(n, ast.Name) and n.id != "np"]
             if not ast.unparse(node.value).startswith("np.where(") or len(names) != 1:
                 raise ValueError("anchor_indices is not np.where(<mask>)[0]")
@@ -465,13 +470,16 @@ def _gen_structure(tree, cmp_tree, geo_tree):
     guard = [st for st in f.body if isinstance(st, ast.If) and _raise_class(st.body)]
     _need(len(guard) == 1 and isinstance(guard[0].test, ast.Compare), "apply has not exactly one raising guard")
     t = guard[0].test
-    _need(_u(t.left) == "mobile_coord.shape[0]" and isinstance(t.comparators[0], ast.Subscript), "apply guard does not compare mobile_coord.shape[0]")
+    xs = [st.targets[0].id for st in f.body if isinstance(st, ast.Assign) and _u(st.value) == "coord(atoms)"]
+    _need(len(xs) == 1, "apply does not start from coord(atoms)")
+    X = xs[0]                                           # the local holding the coordinates, whatever it is called
+    _need(_u(t.left) == f"{X}.shape[0]" and isinstance(t.comparators[0], ast.Subscript), "apply guard does not compare <coordinates>.shape[0]")
     attr = [n.attr for n in ast.walk(t.comparators[0]) if isinstance(n, ast.Attribute) and isinstance(n.value, ast.Name) and n.value.id == "self"]
     _need(len(attr) == 1 and _u(t.comparators[0]) == f"self.{attr[0]}.shape[0]", "apply guard right-hand side is not self.<attr>.shape[0]")
-    copies = any(isinstance(st, ast.Assign) and _u(st.value) == "mobile_coord.copy()" for st in f.body)
+    copies = any(isinstance(st, ast.Assign) and _u(st.value) == f"{X}.copy()" for st in f.body)
     reshape = any(isinstance(st, ast.Assign) and _u(st.value).endswith(".reshape(original_shape)") for st in f.body)
-    pre = [_u(st.value) for st in f.body if isinstance(st, ast.Assign) and isinstance(st.targets[0], ast.Name)
-           and st.targets[0].id == "mobile_coord"]
+    pre = [_us(st.value, {X: "mobile_coord"}) for st in f.body if isinstance(st, ast.Assign) and isinstance(st.targets[0], ast.Name)
+           and st.targets[0].id == X]
     L += ["/-- `apply`: `if mobile_coord.shape[0] <cmp> self.<attr>.shape[0]: raise <exc>`; works on a copy; reshapes back. -/",
           f"def applyGuard : List String := {SL([_cmp_name(t.ops[0]), attr[0], _raise_class(guard[0].body)])}",
           f"def applyCopiesInput : Bool := {'true' if copies else 'false'}",
@@ -638,7 +646,7 @@ def _gen_structure(tree, cmp_tree, geo_tree):
           f"def wooQuantileCall : List String := {SL([_us(a, {sq[0].targets[0].id: 'SQ_DIST'}) for a in qcall[0].value.args] + [k.arg for k in qcall[0].value.keywords])}",
           f"def wooIprIsSecondMinusFirst : Bool := {'true' if (_u(ipr[0].value.left), _u(ipr[0].value.right)) == (qn[1], qn[0]) else 'false'}",
           f"def wooBreaks : List String := {SL(breaks)}",
-          f"def wooReturn : String := {S(_u(ret))}"]
+          f"def wooReturn : String := {S(_us(ret, {ret.elts[2].id: 'anchor_indices'}) if isinstance(ret, ast.Tuple) and len(ret.elts) == 3 and isinstance(ret.elts[2], ast.Name) else _u(ret))}"]
 
     # ---- superimpose_homologs and its helpers
     f = _find_func(tree, "superimpose_homologs")
